@@ -7,7 +7,7 @@ from .refint import Ref
 from . import progen
 
 
-def gen_steps(prog, wl, fl, nsteps, *, p_reset=0.1, p_coincide=0.3, ctl_bias=0.5, allow_reset=True, p_mixed=0.0):
+def gen_steps(prog, wl, fl, nsteps, *, p_reset=0.1, p_coincide=0.3, ctl_bias=0.5, allow_reset=True, p_mixed=0.0, setx=None):
     """Manual-mode step list for a program: input writes, clock level changes (alone / coincident), reset lines."""
     doms = prog["domains"]
     sigs = prog["signals"]
@@ -19,6 +19,23 @@ def gen_steps(prog, wl, fl, nsteps, *, p_reset=0.1, p_coincide=0.3, ctl_bias=0.5
         if not d["reset_less"]:
             levels[d["name"] + ".rst"] = 0
     steps = []
+    # structured testbench writes: ctx.set() through slices / concatenations / part selects / array elements of input signals, and
+    # writes that must be refused (the target includes a combinationally driven signal) without any effect, now or later
+    gx = progen._Gen(wl, {})
+    gx.sigs = sigs
+    in_chunks = [(i, 0, sigs[i]["width"]) for i in inputs]
+    in_chunks += [(i, 0, sigs[i]["width"] // 2) for i in inputs if sigs[i]["width"] >= 2]      # (slices as array elements etc.)
+    comb_sigs = set()
+
+    def _comb(m):
+        for (si_, lo_, hi_, d_) in m["owns"]:
+            if d_ == "comb" and hi_ > lo_:
+                comb_sigs.add(si_)
+        for sub in m["subs"]:
+            _comb(sub)
+    _comb(prog["top"])
+    comb_sigs = sorted(comb_sigs)
+    p_setx = setx if setx is not None else 0.0
     # start with the inserted enables mostly on
     for c in ctls:
         if wl.random() < 0.6:
@@ -27,6 +44,18 @@ def gen_steps(prog, wl, fl, nsteps, *, p_reset=0.1, p_coincide=0.3, ctl_bias=0.5
         for _ in range(wl.choice([0, 1, 1, 2, 3])):
             if ctls and wl.random() < ctl_bias * 0.4:
                 steps.append({"k": "set", "s": wl.choice(ctls), "v": wl.randint(0, 1)})
+            elif inputs and p_setx and wl.random() < p_setx:
+                c = wl.choice(in_chunks)
+                t = gx.target(c, [x for x in in_chunks if x[0] != c[0] and wl.random() < 0.7], list(range(len(sigs))))
+                tw = progen.shape_of(t, sigs)[0]
+                if tw:
+                    if comb_sigs and fl.random() < 0.25:
+                        parts = [t, ["sig", fl.choice(comb_sigs)]]
+                        if fl.random() < 0.5:
+                            parts.reverse()
+                        steps.append({"k": "setr", "t": ["cat", parts], "v": wl.randrange(1 << (tw + 2))})
+                    else:
+                        steps.append({"k": "setx", "t": t, "v": wl.randrange(1 << tw)})
             elif inputs:
                 i = wl.choice(inputs)
                 w = sigs[i]["width"]
@@ -58,6 +87,10 @@ def gen_steps(prog, wl, fl, nsteps, *, p_reset=0.1, p_coincide=0.3, ctl_bias=0.5
                 ch[ln] = 1
         steps.append({"k": "ev", "l": ch})
     return steps
+
+
+class Unjudged(Exception):
+    pass
 
 
 class ProgRun:
@@ -145,6 +178,21 @@ class ProgRun:
                         sets_since += 1
                         if sets_since == 3:
                             F["glitch-in"] = F.get("glitch-in", 0) + 1
+                elif st["k"] == "setx":
+                    drv.set(self.B.ex(st["t"]), st["v"])
+                    ref.poke(st["t"], st["v"])
+                    P["structured_write"] = P.get("structured_write", 0) + 1
+                elif st["k"] == "setr":
+                    from amaranth.hdl import DriverConflict
+                    try:
+                        drv.set(self.B.ex(st["t"]), st["v"])
+                    except DriverConflict:
+                        F["refused_write"] = F.get("refused_write", 0) + 1
+                    else:
+                        # no statement of the program ended up driving that signal combinationally (a minimised program, an
+                        # aborted branch): the write is legal, but the reference's notion of who owns those bits no longer
+                        # applies - the rest of the run is not judged
+                        raise Unjudged()
                 else:
                     changes = {}
                     rst_changes = {}
@@ -205,6 +253,8 @@ class ProgRun:
                 self.run.rerun(body)
             else:
                 self.run.run(body)
+        except Unjudged:
+            P["unjudged_accepted_write"] = P.get("unjudged_accepted_write", 0) + 1
         finally:
             self.dig.add_events(self.run.events)
             stats["decisions"] = self.run.decisions
